@@ -40,27 +40,49 @@ def _is_flag_load(t):
     return bool(t) and t[0] == "load" and t[1][0] == "deref" and isinstance(t[1][1], tuple) and t[1][1] and t[1][1][0] == "call" and t[1][1][1].endswith(GF)
 
 
+def _flag_update(x, fs):
+    """compose the stores through *get_flag() of one token and evaluate the result for every initial byte value:
+    -> (shift, mark) such that new == ((old >> shift) | mark) & 0xFF for all old, or an error string"""
+    import termeval
+    fns = []
+    for e in fs:
+        def leaf(q):
+            if _is_flag_load(q):
+                return "cur"
+            raise termeval.Unsupported(tstr(q))
+        try:
+            fns.append(termeval.make_fn(termeval.compile_term(e[2], leaf), ["cur"]))
+        except Exception as ex:
+            return "the flag byte is updated by %s, which is not a function of the flag byte and constants" % tstr(e[2])[:80]
+    def run(v):
+        for g in fns:
+            v = g(v) & 0xFF
+        return v
+    mark = run(0)
+    for sh in range(0, 8):
+        if all(run(v) == ((v >> sh) | mark) & 0xFF for v in range(256)):
+            return sh, mark
+    return "the flag byte update is not `flag = (flag >> k) | m`"
+
+
 def classify_token(x, events):
     """events: the effects between two consume_flag calls.  -> dict describing the token or an error string"""
     wc = [e for e in events if e[0] == "call" and e[1].endswith(WC)]
     fs = [e for e in events if e in _flag_stores(x)]
     if not wc and not fs:
         return None
-    shifts = [e for e in fs if uncast(e[2])[0] == "bin" and uncast(e[2])[1] == "Shr" and _is_flag_load(uncast(e[2])[2])]
-    marks = [e for e in fs if uncast(e[2])[0] == "bin" and uncast(e[2])[1] == "BitOr" and _is_flag_load(uncast(e[2])[2])]
-    other = [e for e in fs if e not in shifts and e not in marks]
-    if other:
-        return "the flag byte is updated by %s, neither `>>= k` nor `|= m`" % tstr(other[0][2])[:80]
-    if len(shifts) != 1 or not is_const(uncast(shifts[0][2])[3]):
-        return "the flag byte is shifted %d times for one token" % len(shifts)
-    sh = const_val(uncast(shifts[0][2])[3])
-    if marks and fs.index(marks[0]) < fs.index(shifts[0]):
-        return "the match bit is set before the flag byte is shifted (it would be shifted away from the top position)"
-    if len(wc) == 1 and not marks:
+    if not fs:
+        return "a token is written without updating the flag byte"
+    fu = _flag_update(x, fs)
+    if isinstance(fu, str):
+        return fu
+    sh, mark = fu
+    if len(wc) == 1 and mark == 0:
         return {"kind": "lit", "shift": sh, "bytes": [wc[0][2][1]]}
-    if len(wc) == 3 and len(marks) == 1 and is_const(uncast(marks[0][2])[3]):
-        return {"kind": "match", "shift": sh, "mark": const_val(uncast(marks[0][2])[3]), "bytes": [e[2][1] for e in wc]}
-    return "a token writes %d code byte(s) and sets the match bit %d time(s): neither a literal (1, 0) nor a match (3, 1)" % (len(wc), len(marks))
+    if len(wc) == 3 and mark != 0:
+        return {"kind": "match", "shift": sh, "mark": mark, "bytes": [e[2][1] for e in wc]}
+    return "a token writes %d code byte(s) and %s the match bit: neither a literal (1 byte, bit clear) nor a match (3 bytes, bit set)" % (
+        len(wc), "sets" if mark else "does not set")
 
 
 def check_match_bytes(b):
@@ -183,48 +205,71 @@ def rule_lz_buffer(ctx, cfg, r):
                     r.ok(f.name, "lz/token", None)
     if ntok["lit"] < 2 or ntok["match"] < 1:
         r.fail(f.name, "lz/fast-rows", "expected literal and match tokens in compress_fast, found %s" % ntok)
-    # ------------------------------------------------------------------ flag-slot bookkeeping
+    # ------------------------------------------------------------------ flag-slot bookkeeping (evaluated as a function of num_flags_left)
+    import termeval
+
+    def leaf_n(q):
+        if q[0] == "load" and paths.place_is_field(q[1], "num_flags_left"):
+            return "n"
+        if _is_flag_load(q):
+            return "flag"
+        if q[0] == "load" and paths.place_is_field(q[1], "code_position"):
+            return "cp"
+        raise termeval.Unsupported(tstr(q))
+
+    def behaviour(g, n):
+        """the row of g taken for num_flags_left == n: (new num_flags_left, plant_flag called, flag stores, code_position delta)"""
+        for x in paths.Evaluator(c, effects=E).run(g):
+            if x.outcome[0] != "return":
+                continue
+            try:
+                cond = termeval.make_fn(termeval.row_condition(x, leaf_n), ["n", "flag", "cp"])
+                if not cond(n, 0xA5, 1000):
+                    continue
+            except Exception:
+                return None
+            st = [e for e in x.stores() if e[1][0] == "fld" and e[1][2] == "num_flags_left"]
+            nv = n
+            if st:
+                nv = termeval.make_fn(termeval.compile_term(st[-1][2], leaf_n), ["n", "flag", "cp"])(n, 0xA5, 1000)
+            fl = 0xA5
+            for e in _flag_stores(x):
+                fl = termeval.make_fn(termeval.compile_term(e[2], leaf_n), ["n", "flag", "cp"])(n, fl, 1000) & 0xFF
+            cps = [e for e in x.stores() if e[1][0] == "fld" and e[1][2] == "code_position"]
+            cp = 1000
+            if cps:
+                cp = termeval.make_fn(termeval.compile_term(cps[-1][2], leaf_n), ["n", "flag", "cp"])(n, 0xA5, 1000)
+            return nv, bool(calls_named(x, "LZOxide::plant_flag")), fl, cp - 1000
+        return None
     g = c.fn("deflate::core::LZOxide::consume_flag")
     ctx.touched(g)
     N = None
-    okc = True
-    for x in paths.Evaluator(c, effects=E).run(g):
-        if x.outcome[0] != "return":
-            continue
-        st = [e for e in x.stores() if e[1][0] == "fld" and e[1][2] == "num_flags_left"]
-        pf = calls_named(x, "LZOxide::plant_flag")
-        zero = [s.single() for a, s in x.atoms if a[0] == "bin" and a[1] == "Eq" and is_const(a[3]) and const_val(a[3]) == 0]
-        if zero and zero[-1] == 1:
-            if len(st) == 2 and is_const(st[-1][2]) and len(pf) == 1:
-                N = const_val(st[-1][2])
-            else:
-                okc = False
-        else:
-            v = uncast(st[-1][2]) if st else None
-            if not (len(st) == 1 and v[0] == "bin" and v[1] == "Sub" and is_const(v[3]) and const_val(v[3]) == 1 and not pf):
-                okc = False
-    if okc and N:
+    b1 = behaviour(g, 1)
+    if b1 and b1[1]:
+        N = b1[0]
+    okc = N is not None and 2 <= N <= 8
+    if okc:
+        for n in range(2, N + 1):
+            b = behaviour(g, n)
+            okc = okc and b is not None and b[0] == n - 1 and not b[1]
+    if okc:
         r.ok(g.name, "lz/slots", "consume_flag: %d tokens per flag byte, then a new flag byte is planted" % N)
     else:
-        r.fail(g.name, "lz/slots", "consume_flag does not count down one slot per token and plant a new flag byte when none is left")
+        r.fail(g.name, "lz/slots", "consume_flag does not count down one slot per token and plant a new flag byte (with a full set of slots) when "
+               "the last one is used (behaviour for 1 slot left: %s)" % (b1,))
     g = c.fn("deflate::core::LZOxide::init_flag")
     ctx.touched(g)
-    oki = 0
-    for x in paths.Evaluator(c, effects=E).run(g):
-        if x.outcome[0] != "return":
-            continue
-        full = [s.single() for a, s in x.atoms if a[0] == "bin" and a[1] == "Eq" and is_const(a[3]) and N is not None and const_val(a[3]) == N and
-                paths.is_load_of(a[2], "num_flags_left")]
-        fs = _flag_stores(x)
-        if full and full[-1] == 1:
-            cp = [e for e in x.stores() if e[1][0] == "fld" and e[1][2] == "code_position"]
-            if len(fs) == 1 and is_const(fs[0][2]) and const_val(fs[0][2]) == 0 and cp and uncast(cp[-1][2])[1] == "Sub":
-                oki += 1
-        elif full and full[-1] == 0:
-            v = uncast(fs[0][2]) if len(fs) == 1 else None
-            if v and v[0] == "bin" and v[1] == "Shr" and _is_flag_load(v[2]) and paths.is_load_of(uncast(v[3]), "num_flags_left"):
-                oki += 1
-    if oki == 2:
+    oki = N is not None
+    if oki:
+        for n in range(1, N + 1):
+            b = behaviour(g, n)
+            if b is None:
+                oki = False
+            elif n == N:
+                oki = oki and b[2] == 0 and b[3] == -1       # unused flag byte: cleared and dropped
+            else:
+                oki = oki and b[2] == (0xA5 >> n) and b[3] == 0
+    if oki:
         r.ok(g.name, "lz/align", "init_flag: an unused flag byte is dropped; a partial one is shifted right by the number of unused slots")
     else:
         r.fail(g.name, "lz/align", "init_flag does not right-align a partial flag byte by exactly num_flags_left (or does not drop an unused flag byte): "
